@@ -231,7 +231,7 @@ impl Check for C17 {
         "C17"
     }
     fn workloads(&mut self, tier: Tier, _seed: u64) -> Vec<(String, u64)> {
-        let k = if tier == Tier::Quick { 1 } else { 25 };
+        let k = if tier == Tier::Quick { 3 } else { 100 };
         vec![("interleaved-values".into(), 40_000 * k), ("random-values".into(), 20_000 * k), ("dyn".into(), 25_000 * k)]
     }
     fn run(&mut self, ctx: &mut Ctx, workload: &str, index: u64, rng: &mut Rng) {
